@@ -441,14 +441,25 @@ fn parse_backend(input: ParseStream) -> Result<Backend> {
     let content;
     braced!(content in input);
 
-    let mut prologue = None;
-    let mut epilogue = None;
+    let mut prologue: Option<String> = None;
+    let mut epilogue: Option<String> = None;
+
+    // a block may have several sections of a kind: they follow each other in source order
+    fn append(section: &mut Option<String>, text: String) {
+        match section {
+            Some(existing) => {
+                existing.push('\n');
+                existing.push_str(&text);
+            }
+            None => *section = Some(text),
+        }
+    }
 
     while !content.is_empty() {
         if let Some(new_prologue) = parse_block::<kw::prologue>(&content, kw::prologue)? {
-            prologue = Some(new_prologue);
+            append(&mut prologue, new_prologue);
         } else if let Some(new_epilogue) = parse_block::<kw::epilogue>(&content, kw::epilogue)? {
-            epilogue = Some(new_epilogue);
+            append(&mut epilogue, new_epilogue);
         } else {
             return Err(content.error("expected prologue or epilogue"));
         }
